@@ -255,6 +255,11 @@ class World:
                 self.root = build([None, None])
         else:
             self.root = build(t["shape"])
+        # a caller may keep one TreeLayout object for all its calls, or make one per call
+        self.shared = None
+        if cfg.get("shared_layouter", False):
+            from mathy_core.layout import TreeLayout
+            self.shared = TreeLayout()
         self.calls = 0
         self.prev = "first"
         self.hist = []
@@ -300,6 +305,8 @@ class World:
             st["fault.sublayout_between_layouts"] += 1
         if after != "first":
             st["probe.layout_on_nodes_with_stale_state"] += 1
+            if self.shared is not None:
+                st["probe.reused_layout_object"] += 1
         if after == "edit":
             st["probe.layout_after_edit"] += 1
         if after == "sub":
@@ -313,7 +320,8 @@ class World:
         # keeps its parent link, as a caller holding a sub-expression would)
         try:
             with core.op_budget(10.0):
-                meas = TreeLayout().layout(target, ux, uy)
+                layouter = self.shared if self.shared is not None else TreeLayout()
+                meas = layouter.layout(target, ux, uy)
         except core.OpTimeout:
             fs.append(Finding("C18", dict(base, clause="hang"), f"layout did not return ({self._desc(shape)})"))
             return fs
@@ -407,6 +415,7 @@ class LayoutSim:
             max_n = self.EXH_QUICK if tier == "quick" else self.EXH_THOROUGH
             shape = shape_by_index(idx, max_n)
             cfg["tree"] = {"kind": "shape", "shape": shape}
+            cfg["shared_layouter"] = idx % 3 != 0
             n = shape_size(shape)
             cfg["script"] = [
                 ["layout", 0, 1.0, 1.0],
@@ -426,6 +435,7 @@ class LayoutSim:
             g = {"depth": rng.choice([2, 3, 4]), "space": 1, "floats": False, "eq": True,
                  "fact": True, "sgn": True}
             cfg["tree"] = {"kind": "expr", "text": gen.valid_text(rng, g)}
+        cfg["shared_layouter"] = rng.random() < 0.6
         cfg["n_ops"] = rng.choice([2, 3, 4, 6, 10])
         cfg["w"] = {"root": rng.choice([3, 5]), "sub": rng.choice([0, 1, 2, 3]),
                     "edit": rng.choice([0, 0, 1, 2])}
@@ -464,14 +474,15 @@ class LayoutSim:
                 "what preceded) with at least two layout calls on the same nodes.")
 
     def probe_names(self, prop):
-        return ["layout_on_nodes_with_stale_state", "layout_after_edit", "layout_after_sublayout",
+        return ["layout_on_nodes_with_stale_state", "reused_layout_object", "layout_after_edit", "layout_after_sublayout",
                 "uneven_shape", "one_child_shape"]
 
     def components(self, prop):
         return {
             "real": ["mathy_core.layout.TreeLayout (measure, transform)", "mathy_core.tree.BinaryTreeNode",
                      "mathy_core.parser (expression-shaped strata)"],
-            "simulated": ["caller issuing layout calls / edits in seeded order"],
+            "simulated": ["caller issuing layout calls / edits in seeded order, keeping one TreeLayout object "
+                          "or making one per call"],
             "reference_models": ["TreeLayout on a pristine clone of the current shape (real code, fresh nodes)",
                                  "own tidy-invariant checker", "own mirror map"],
             "stubbed": [],
